@@ -41,6 +41,9 @@ struct RunRes {
     /// Some(text): after the faults had cleared and one more rotation (with its cleanup pass) had
     /// completed, more files exist than the cleanup strategy allows
     limits_exceeded: Option<String>,
+    /// what the reference partition model predicts for the operations of this run (all writes
+    /// taken as successful): the byte contents of the files in order
+    model_chunks: Vec<Vec<u8>>,
 }
 
 fn run_once(case: &Case, sc: &Scratch, tag: &str, faults: &BTreeMap<(String, u64), std::io::ErrorKind>) -> Result<RunRes, (String, String)> {
@@ -81,7 +84,10 @@ fn run_once_x(case: &Case, sc: &Scratch, tag: &str, faults: &BTreeMap<(String, u
         tail_first: 0,
         stray: Vec::new(),
         limits_exceeded: None,
+        model_chunks: Vec::new(),
     };
+    // (time, Some(line) = record | None = forced rotation), replayed through the model afterwards
+    let events: std::cell::RefCell<Vec<(Option<i64>, Option<Vec<u8>>)>> = std::cell::RefCell::new(Vec::new());
     let err_len = || std::fs::metadata(&err).map(|m| m.len()).unwrap_or(0);
     let mut ops_since_fault = 0u32;
     let mut initialized = false;
@@ -91,6 +97,11 @@ fn run_once_x(case: &Case, sc: &Scratch, tag: &str, faults: &BTreeMap<(String, u
         let hits_before = hh.points.lock().unwrap().faults_hit.len();
         let e0 = err_len();
         res.init_done_before.insert(*q, *initialized);
+        {
+            let mut line = p.clone().into_bytes();
+            line.extend_from_slice(cfg.line_ending());
+            events.borrow_mut().push((hh.time(), Some(line)));
+        }
         sess.write(&p);
         let hits: Vec<(String, u64)> = hh.points.lock().unwrap().faults_hit[hits_before..].to_vec();
         let grew = err_len() > e0;
@@ -112,6 +123,7 @@ fn run_once_x(case: &Case, sc: &Scratch, tag: &str, faults: &BTreeMap<(String, u
             Op::Rotate => {
                 let hits_before = hh.points.lock().unwrap().faults_hit.len();
                 let e0 = err_len();
+                events.borrow_mut().push((hh.time(), None));
                 let r = sess.rotate();
                 let hits: Vec<(String, u64)> = hh.points.lock().unwrap().faults_hit[hits_before..].to_vec();
                 // an explicit rotation reports its failure through its result
@@ -143,6 +155,7 @@ fn run_once_x(case: &Case, sc: &Scratch, tag: &str, faults: &BTreeMap<(String, u
     do_write(10, &mut q, &mut res, &mut initialized);
     let tail_a = q - 1;
     if cfg.rot.is_some() {
+        events.borrow_mut().push((hh.time(), None));
         if sess.rotate().is_err() {
             res.tail_rotate_ok = false;
         }
@@ -185,11 +198,24 @@ fn run_once_x(case: &Case, sc: &Scratch, tag: &str, faults: &BTreeMap<(String, u
             ));
         }
     }
-    let _ = model;
+    for (t, ev) in events.borrow().iter() {
+        match ev {
+            Some(line) => model.write(line, *t),
+            None => model.rotate(*t),
+        }
+    }
+    res.model_chunks = model.chunks.iter().map(|c| c.bytes.clone()).collect();
     Ok(res)
 }
 
 fn check_run(case: &Case, res: &RunRes, what: &str) -> Result<(), (String, String)> {
+    check_run_x(case, res, what, false)
+}
+
+/// `partition`: no write, open or rename was made to fail in this run (faults only in cleanup and
+/// compression, or none): which record goes into which file must then be exactly what the
+/// reference partition model predicts - every surviving file holds the bytes of one model chunk
+fn check_run_x(case: &Case, res: &RunRes, what: &str, partition: bool) -> Result<(), (String, String)> {
     let cfg = &case.cfg;
     let le = cfg.line_ending();
     if !res.stray.is_empty() {
@@ -241,6 +267,23 @@ fn check_run(case: &Case, res: &RunRes, what: &str) -> Result<(), (String, Strin
     for ((name, occ), grew) in &res.err_grew {
         if MUST_REPORT.contains(&name.as_str()) && !grew {
             return Err(("failure-not-reported".into(), format!("{what}: the injected failure of {name} (occurrence {occ}) produced no output on the error channel")));
+        }
+    }
+    if partition {
+        for f in &res.fam {
+            if !f.content.is_empty() && !res.model_chunks.iter().any(|c| *c == f.content) {
+                return Err((
+                    "partition-changed".into(),
+                    format!(
+                        "{what}: file {} holds {} bytes {:?}, which is none of the chunks the size/age criterion and the forced rotations produce (sizes {:?}); files {:?}",
+                        f.name,
+                        f.content.len(),
+                        lossy(&f.content[..f.content.len().min(60)]),
+                        res.model_chunks.iter().map(Vec::len).collect::<Vec<_>>(),
+                        res.fam.iter().map(|f| format!("{}[{}B]", f.name, f.content.len())).collect::<Vec<_>>()
+                    ),
+                ));
+            }
         }
     }
     if let Some(t) = &res.limits_exceeded {
@@ -314,7 +357,7 @@ fn run_inner(case: &Case) -> Outcome {
             Ok(r) => r,
             Err((sig, msg)) => return Outcome::fail(sig, msg),
         };
-        if let Err((sig, msg)) = check_run(case, &base, "fault-free run") {
+        if let Err((sig, msg)) = check_run_x(case, &base, "fault-free run", true) {
             return Outcome::fail(format!("baseline:{sig}"), msg);
         }
         let hits: Vec<(String, u64)> = base.trace.iter().filter(|(n, _)| FAULT_POINTS.contains(&n.as_str())).cloned().collect();
@@ -373,7 +416,8 @@ fn run_inner(case: &Case) -> Outcome {
                     break;
                 }
             };
-            if let Err((sig, msg)) = check_run(case, &r, &what) {
+            let cleanup_only = plan.keys().all(|(n, _)| n.starts_with("cleanup.") || n.starts_with("gz."));
+            if let Err((sig, msg)) = check_run_x(case, &r, &what, cleanup_only) {
                 let point = plan.keys().next().map(|(n, _)| n.clone()).unwrap_or_default();
                 out.set_fail(format!("{sig}@{point}"), msg);
                 break;
